@@ -16,6 +16,8 @@ fn main() {
     }
     let code = match id {
         "C01" => c01::run(&tier),
+        "C02" => c02::run(&tier),
+        "C03" => c03::run(&tier),
         _ => {
             eprintln!("unknown property {}", id);
             2
